@@ -231,10 +231,11 @@ def main():
         "property_id": pid, "tier": tier, "seed": seed, "level": "proof",
         "coverage": {
             "obligations": max(pr["obligations"], 1), "discharged": pr["discharged"] if not pr["failures"] else min(pr["discharged"], max(pr["obligations"] - 1, 0)),
-            "checker_cmd": "cd /verif/coq && make -j16 && coqc -Q theories CF theories/Props/%s.v   (Print Assumptions under every property theorem%s)" % (pid, "; coqchk -o" if tier == "thorough" else ""),
+            "checker_cmd": "python3 /verif/tools/translate.py && cd /verif/coq && make -j16 theories/Props/%s.vo && coqc -Q theories CF theories/Props/%s.v   (Print Assumptions under every property theorem%s)" % (pid, pid, "; coqchk -o" if tier == "thorough" else ""),
             "trusted_base": ["Coq 8.16.1 kernel (incl. vm_compute); no native_compute", "axioms: none (every property theorem prints 'Closed under the global context')" if not pr["axioms"] else "axioms: %s" % pr["axioms"],
                              "extraction: ExtrOcamlBasic only (bool, option, unit, list, prod, sumbool, sumor mapped; Z, positive, nat kept inductive); ocaml/driver.ml; Zarith for decimal I/O",
                              "harness: generators, canonicalisation, comparison (harness/*.py); oracle.py only for failing-input search",
+                             ] + (["tools/translate.py (Python ast -> Gallina for the functions this property's *_source_* theorems speak about) and the Python built-in semantics restated in Base/PyLib.v"] if pid in TRANSLATED_USERS else []) + [
                              "the implementation is compared with the model on the generated cases of this run, not verified for all inputs"],
             "theorems": pr["theorems"], "proof_failures": pr["failures"],
             "evaluations": stats["impl_runs"], "distinct_nontrivial": nontrivial,
